@@ -36,14 +36,14 @@ def file_outcome(path: Path) -> dict[str, Any]:
         return {"r": "notFound"}
     except IsADirectoryError:
         return {"r": "isDir"}
-    except UnicodeDecodeError:
-        return {"r": "foreign", "kind": "UnicodeDecodeError"}
+    except UnicodeDecodeError as e:
+        return {"r": "invalid", "msg": str(e)}
     except OSError as e:
         return {"r": "crash", "kind": type(e).__name__}
     try:
         doc = tomllib.loads(text)
-    except tomllib.TOMLDecodeError:
-        return {"r": "foreign", "kind": "TOMLDecodeError"}
+    except tomllib.TOMLDecodeError as e:
+        return {"r": "invalid", "msg": str(e)}
     return {"r": "ok", "doc": annotate(doc)}
 
 
@@ -90,7 +90,7 @@ def settings_json(s: Any) -> dict[str, Any]:
         "verbose": s.verbose,
         "timing_stats": None if s.timing_stats is None else str(s.timing_stats),
         "color": s.color,
-        "load_ill_typed": any(not isinstance(x, str) for x in s.load),
+        "load_all_str": all(isinstance(x, str) for x in s.load),
     }
 
 
@@ -98,6 +98,7 @@ def canon_model_settings(v: dict[str, Any]) -> dict[str, Any]:
     v = dict(v)
     for k in ("ignore", "enable", "disable"):
         v[k] = canon_set(v[k])
+    v["load_all_str"] = True  # the model's parser rejects anything else
     if v.get("timing_stats") is not None:
         v["timing_stats"] = str(Path(v["timing_stats"]))
     return v
